@@ -20,6 +20,19 @@ R_FALSE, R_TRUE, R_MACHINE, R_ATTRIBUTE, R_OTHER = 0, 1, 2, 3, 9
 MAX_FIRINGS = 400   # per case; the generated cases stay far below (a defect that leaks timers can explode)
 
 
+# kinds of failure of an on_timeout callback (field 'kind' of the callback, default 1)
+KIND_EXCEPTION, KIND_BASE, KIND_CANCELLED = 1, 2, 3
+
+
+class UserBase(BaseException):
+    """a failure that is NOT an Exception (like SystemExit / KeyboardInterrupt, without their special treatment by
+    the event loop)"""
+    def __init__(self, cb, m):
+        super().__init__(cb)
+        self.cb = cb
+        self.m = m
+
+
 class UserExc(Exception):
     def __init__(self, cb, m):
         super().__init__(cb)
@@ -215,6 +228,7 @@ class Ctx(object):
         self.fired = 0
         self.stop = None           # asyncio: stops the loop when timers run away
         self.calls = 0
+        self.raiser = {}           # model -> first on_timeout callback that failed in the current firing
         self.models = [make_model(self, i) for i in range(case['nmodels'])]
         self.mid = {id(m): i for i, m in enumerate(self.models)}
 
@@ -270,10 +284,24 @@ def _state_defs(ctx, is_async):
         def f(event_data):
             if kind == K_FIRED:
                 ctx.fired += 1
+                ctx.raiser[ctx.m_of(event_data)] = None
                 if ctx.fired > MAX_FIRINGS and ctx.stop is not None:
                     ctx.stop()
             log.append([kind, ctx.m_of(event_data), s, ctx.now()])
         return f
+
+    def fail(cb, m):
+        """raise the failure of the callback's kind: an Exception, a BaseException that is not an Exception, or
+        asyncio.CancelledError (what awaiting a cancelled task / future raises inside a handler).  gather re-creates
+        a CancelledError, so the identity of the failing callback is remembered per firing."""
+        if ctx.raiser.get(m) is None:
+            ctx.raiser[m] = cb['id']
+        kind = cb.get('kind', KIND_EXCEPTION)
+        if kind == KIND_BASE:
+            raise UserBase(cb['id'], m)
+        if kind == KIND_CANCELLED:
+            raise asyncio.CancelledError()
+        raise UserExc(cb['id'], m)
 
     def on_timeout_sync(cb):
         def f(event_data):
@@ -290,7 +318,7 @@ def _state_defs(ctx, is_async):
                     r = _res_code(ctx.tr, ex)
                 log.append([K_RES, tm, e, r, ctx.now()])
             if cb['raises']:
-                raise UserExc(cb['id'], m)
+                fail(cb, m)
         return f
 
     def on_timeout_async(cb):
@@ -308,7 +336,7 @@ def _state_defs(ctx, is_async):
                     r = _res_code(ctx.tr, ex)
                 log.append([K_RES, tm, e, r, ctx.now()])
             if cb['raises']:
-                raise UserExc(cb['id'], m)
+                fail(cb, m)
         return f
 
     out = []
@@ -329,7 +357,21 @@ def _on_exception(ctx):
     def mk(cb):
         def f(event_data):
             err = event_data.error
-            code = err.cb if isinstance(err, UserExc) else 0 if isinstance(err, ctx.tr.MachineError) else 999
+            m = ctx.m_of(event_data)
+            if isinstance(err, (UserExc, UserBase)):
+                code = err.cb
+            elif isinstance(err, ctx.tr.MachineError):
+                code = 0
+            elif isinstance(err, asyncio.CancelledError):
+                code = ctx.raiser.get(m) or 998
+            else:
+                code = 999
+            # the error handed over must be of the kind the callback failed with
+            want = {cb['id']: cb.get('kind', KIND_EXCEPTION) for st in ctx.case['states'] for cb in st['on_timeout']}.get(code)
+            have = KIND_EXCEPTION if isinstance(err, UserExc) else KIND_BASE if isinstance(err, UserBase) else \
+                KIND_CANCELLED if isinstance(err, asyncio.CancelledError) else None
+            if code not in (0, 998, 999) and want != have:
+                code = 997
             ctx.log.append([K_ONEXC, cb, ctx.m_of(event_data), code, ctx.now()])
         return f
     return [mk(cb) for cb in ctx.case['onexc']]
@@ -371,8 +413,11 @@ def run_threaded(case):
         ctx = Ctx(case, tr, lambda: clock.now)
 
         def escaped(ex):
-            if isinstance(ex, UserExc):
+            if isinstance(ex, (UserExc, UserBase)):
                 ctx.log.append([K_ESCAPE, ex.cb, ex.m, clock.now])
+            elif isinstance(ex, asyncio.CancelledError) and len([m for m, v in ctx.raiser.items() if v]) >= 1:
+                m, v = [(m, v) for m, v in ctx.raiser.items() if v][-1]
+                ctx.log.append([K_ESCAPE, v, m, clock.now])
             else:
                 ctx.log.append([K_ESCAPE, 999, 99, clock.now])
         clock.escaped = escaped
@@ -467,7 +512,8 @@ RULE = ('cases = @add_state_features(Timeout) on Machine / HierarchicalMachine (
         'loop between the cancellation of a timer and the next entry) of which at most one per list triggers an event on '
         'its model (on_enter 30%: leaves the state at once, re-enters it, internal, invalid; on_exit 15% queued / 5% '
         'unqueued) x on_timeout callbacks that trigger an event on the timed-out model or (threads) on another model '
-        '(35%) and/or raise (12%) x 1-3 events with transitions (reflexive 30%, internal 10%, failing condition 12%, states '
+        '(35%) and/or fail (15%: with an Exception, with a BaseException that is not an Exception, asyncio: also with '
+        'asyncio.CancelledError as when the handler awaits a cancelled task) x 1-3 events with transitions (reflexive 30%, internal 10%, failing condition 12%, states '
         'without transition, denser from the initial state) x 0-2 machine on_exception recorders x 1-3 models x histories '
         'of 2-16 operations, `model.trigger(event)` or `advance(dt)` with dt drawn around the timeouts (0, 1, timeout-1, '
         'timeout, timeout+1, long), half of them with an extra pair of events of one model at the same instant with '
@@ -487,7 +533,8 @@ ASSUMPTIONS = ['threading.Timer and asyncio.sleep call back at their deadline (A
                'virtual-time event loop; real preemption between a timer thread and the caller is not explored, see C06)',
                'ties: timers due at the same instant run in creation order and before an event the caller issues at '
                'that instant (what the virtual clock implements)',
-               'callbacks do not raise except on_timeout callbacks; conditions are constants; on_enter / on_exit callbacks '
+               'callbacks do not raise except on_timeout callbacks (Exception / other BaseException / CancelledError; not '
+               'SystemExit or KeyboardInterrupt, which the event loop itself re-raises); conditions are constants; on_enter / on_exit callbacks '
                'trigger events on their own model only; flat state configurations (nested timeout states: oracle only)',
                'guard_C17: on an unqueued machine the event triggered by an on_exit callback is inert in that state '
                '(otherwise the library recurses until RecursionError: nothing to compare)',
@@ -540,7 +587,9 @@ def gen(rng, i, tier):
                         who = rng.randrange(nm)
                     act = [who, rng.randrange(ne)]
                     acted = True
-                cbs.append(dict(id=fresh(), act=act, raises=rng.random() < 0.12))
+                cbs.append(dict(id=fresh(), act=act, raises=rng.random() < 0.15,
+                                kind=rng.choice([KIND_EXCEPTION, KIND_EXCEPTION, KIND_BASE, KIND_CANCELLED] if is_async
+                                                else [KIND_EXCEPTION, KIND_EXCEPTION, KIND_BASE])))
             if is_async and acted:
                 for cb in cbs:
                     if cb['act'] is None:
